@@ -285,6 +285,29 @@ def run_X2(chk):
         zero_t = [x for x in g[0].body if isinstance(x, ast.Assign) and A.neg_const(x.value) == 0]
         whiles = [x for x in ast.walk(ex.node) if isinstance(x, ast.While)]
         ok = bool(inner) and bool(zero_t) and bool(whiles) and A.text(zero_t[0].targets[0]) in {x.id for x in ast.walk(whiles[0].test) if isinstance(x, ast.Name)}
+    if not ok and nvs:
+        # other spellings of the same decision (guard clauses, merged tests): decided on the CFG specialised on "norm is 0"
+        from ..core.cfg import CFG as _CFG
+        cfg_ = _CFG(ex.node)
+        s0 = [st for st, v, k in b[nv] if st in cfg_.node_of and isinstance(v, ast.Call) and A.callee_attr(v) == "norm"][:1]
+        stmts_ = [n_.ast for n_ in cfg_.nodes if isinstance(n_.ast, ast.stmt)]
+        divs = [st for st in stmts_ if any(isinstance(x, ast.BinOp) and isinstance(x.op, ast.Div) and isinstance(x.right, ast.Name) and x.right.id == nv for x in ast.walk(st))
+                and not isinstance(st, (ast.If, ast.While, ast.For))]
+        whiles = [x for x in ast.walk(ex.node) if isinstance(x, ast.While)]
+        if s0 and whiles:
+            g1 = cfg_.specialised({nv: 0, "normalize": True})
+            live1 = g1.reach_from(cfg_.ids(s0))
+            rets1 = [r for r in A.returns_of(ex.node) if r in cfg_.node_of and cfg_.node_of[r].id in live1]
+            raises1 = [st for st in stmts_ if isinstance(st, ast.Raise) and cfg_.node_of[st].id in live1]
+            g2 = cfg_.specialised({nv: 0, "normalize": False})
+            live2 = g2.reach_from(cfg_.ids(s0))
+            div2 = [d for d in divs if cfg_.node_of[d].id in live2]
+            wnames = {x.id for x in ast.walk(whiles[0].test) if isinstance(x, ast.Name)}
+            zero_t = [st for st in stmts_ if isinstance(st, ast.Assign) and A.neg_const(st.value) == 0 and A.text(st.targets[0]) in wnames
+                      and cfg_.node_of[st].id in live2]
+            wnode = whiles[0].test if whiles[0].test in cfg_.node_of else whiles[0]
+            passes = bool(zero_t) and wnode in cfg_.node_of and not g2.path_exists(s0[0], wnode, avoiding=zero_t)
+            ok = not rets1 and bool(raises1) and not div2 and passes
     chk.verdict("X2", (ex, g[0] if g else ex.node), "expmv: zero vector -> raise if normalize else nothing to propagate", True if ok else False,
                 "expmv: a zero start vector must raise when it is to be normalised and otherwise skip the propagation loop")
 
